@@ -109,6 +109,21 @@ EXPORT errno_t _strcpyfldin_s_chk(char *dest, rsize_t dmax, const char *src,
     orig_dmax = dmax;
     orig_dest = dest;
 
+    /* the whole field is written: it must not reach the characters read
+       (at most slen, up to and including the terminator) */
+    {
+        rsize_t n = 0;
+        while (n < slen && n < dmax && src[n])
+            n++;
+        if (n < slen && n < dmax)
+            n++;
+        if (unlikely(n > 0 && (CHK_OVRLP(dest, dmax, src, n)))) {
+            handle_error(orig_dest, orig_dmax,
+                         "strcpyfldin_s: overlapping objects", ESOVRLP);
+            return (ESOVRLP);
+        }
+    }
+
     if (dest < src) {
         overlap_bumper = src;
 
